@@ -169,6 +169,9 @@ def frame_of(ex, envarg):
             return r.cell, v, v.fields[1]
         if isinstance(v, Opaque):
             return r.cell, v, None
+        if isinstance(v, Lazy) and "LexicalScope" in v.ty:
+            m = ex.project(v, ("f", 1, "cell::RefCell<std::collections::HashMap<std::string::String, values::Value<R>>>"))
+            return r.cell, v, (m if isinstance(m, MapObj) else None)
         r = v
     raise Unsupported("not an environment reference: %r" % (envarg,))
 
@@ -247,7 +250,9 @@ def run_apply_scheme(chk, ex, on_path, holder=None, max_defs=2, max_body=3):
 
     f = ex.fn_by_suffix("::apply_scheme_procedure")
     closure_map = MapObj("closure_defs")
-    closure_rc = Ref(Cell(Adt("LexicalScope", None, [NONE, closure_map]), "closure_frame"))
+    root_rc = Ref(Cell(Adt("LexicalScope", None, [NONE, MapObj("root_defs")]), "root_frame"))
+    # the closure's frame is an EMPTY, NON-ROOT frame: the case in which "optimisations" of frame allocation go wrong
+    closure_rc = Ref(Cell(Adt("LexicalScope", None, [Some(root_rc), closure_map]), "closure_frame"))
     args = ex.fresh_seq("args", "values::Value<R>", maxlen=MAXARGS)
     nd = z3.Int("ndefs")
     nb = z3.Int("nbody")
@@ -258,7 +263,25 @@ def run_apply_scheme(chk, ex, on_path, holder=None, max_defs=2, max_body=3):
     state.update({"closure_rc": closure_rc, "args": args, "defs": defs, "body": body, "fx": fx, "va": va, "nd": nd, "nb": nb, "names": names})
     if holder is not None:
         holder["st"] = state
-    for rv in ex.run(f, [Ref(Cell(formals)), defs, body, closure_rc, args]):
+    call_args = []
+    used_closure = False
+    for pname, pty in f.params:
+        if "ParameterFormalsBody" in pty:
+            call_args.append(Ref(Cell(formals)))
+        elif "DefinitionBody" in pty:
+            call_args.append(defs)
+        elif "ExpressionBody" in pty:
+            call_args.append(body)
+        elif "LexicalScope" in pty and "Option" not in pty and not used_closure:
+            call_args.append(closure_rc)
+            used_closure = True
+        elif "SmallVec" in pty:
+            call_args.append(args)
+        else:
+            # a parameter this harness does not know (added by a refactoring): an arbitrary value of its type
+            call_args.append(ex.fresh_value(pty, "extra_" + pname))
+    state["root_rc"] = root_rc
+    for rv in ex.run(f, call_args):
         on_path(rv, list(ex.events), state)
     return state
 
@@ -271,7 +294,9 @@ def scheme_shape_probe(nat, fixed, variadic, nargs, ndefs, nbody):
     params = ["p%d" % i for i in range(fixed)]
     plist = " ".join(params) + (" . rest" if variadic else "")
     actual = list(range(1, nargs + 1))
-    defs = "".join("(define d%d (tick %d))" % (i, 10 + i) for i in range(ndefs))
+    pvec = "(vector %s %s)" % (" ".join(params), "rest" if variadic else "'none")
+    # every internal definition's initialiser can see the parameters (rest parameter included) and the earlier definitions
+    defs = "".join("(define d%d (begin (tick %d) %s))" % (i, 10 + i, pvec if i == 0 else "d%d" % (i - 1)) for i in range(ndefs))
     bodies = "".join("(tick %d)" % (20 + i) for i in range(nbody - 1))
     result = "(vector %s %s %s)" % (" ".join(params) if params else "", "rest" if variadic else "'none", " ".join("d%d" % i for i in range(ndefs)))
     prog = ("(define log (make-vector 8 0)) (define n 0) (define (tick k) (vector-set! log n k) (set! n (+ n 1)) k)\n"
@@ -279,26 +304,51 @@ def scheme_shape_probe(nat, fixed, variadic, nargs, ndefs, nbody):
     # second probe: closures created by different calls of one procedure do not share their frame
     prog2 = ("(define (mk %s) (define c 0) (lambda () (set! c (+ c 1)) c))\n(define a (mk %s)) (define b (mk %s))\n(a)\n(b)\n(a)\n" % (plist, " ".join(str(x) for x in actual), " ".join(str(x) for x in actual)))
     # third probe: internal definitions and parameters do not leak into the defining environment
-    prog3 = "(define c 100) (define p0 200)\n(define (g %s) (define c 1) c)\n(g %s)\nc\np0\n" % (plist, " ".join(str(x) for x in actual))
+    prog3 = "(define c 100) (define p0 200) (define rest 300)\n(define (g %s) (define c 1) c)\n(g %s)\nc\np0\nrest\n" % (plist, " ".join(str(x) for x in actual))
     from ..harness import hexs
     out = [x.strip() for x in nat.cmd("eval %s" % hexs(prog)).split(" ;; ")]
     exp_vec = ["I %d" % a for a in actual[:fixed]]
     rest = actual[fixed:]
     exp_vec.append(("L %d %s" % (len(rest), " ".join("I %d" % r for r in rest))).strip() if variadic else "Y " + "none".encode().hex())
-    exp_vec += ["I %d" % (10 + i) for i in range(ndefs)]
+    pv_items = ["I %d" % a for a in actual[:fixed]] + [exp_vec[-1]]
+    pv_tok = "VM %d %s" % (len(pv_items), " ".join(pv_items))
+    exp_vec += [pv_tok for i in range(ndefs)]
     exp_res = ("OK VM %d %s" % (len(exp_vec), " ".join(exp_vec))).strip()
     ticks = [10 + i for i in range(ndefs)] + [20 + i for i in range(nbody - 1)]
     exp_log = "OK VM 8 " + " ".join("I %d" % t for t in (ticks + [0] * 8)[:8])
-    got_res, got_log = out[-2], out[-1]
+    norm = lambda t: " ".join(t.split())
+    got_res, got_log = norm(out[-2]), norm(out[-1])
+    exp_res, exp_log = norm(exp_res), norm(exp_log)
     if got_res != exp_res or got_log != exp_log:
         return True, "program %r: result %s (expected %s), evaluation log %s (expected %s)" % (prog, got_res, exp_res, got_log, exp_log)
     out2 = [x.strip() for x in nat.cmd("eval %s" % hexs(prog2)).split(" ;; ")]
     if out2[-3:] != ["OK I 1", "OK I 1", "OK I 2"]:
         return True, "program %r: closures of two calls interfere: %s (expected 1 1 2)" % (prog2, out2[-3:])
     out3 = [x.strip() for x in nat.cmd("eval %s" % hexs(prog3)).split(" ;; ")]
-    if out3[-3:] != ["OK I 1", "OK I 100", "OK I 200"]:
-        return True, "program %r: bindings of a call leak into the defining environment: %s (expected 1 100 200)" % (prog3, out3[-3:])
-    return False, "native probes of this shape behave correctly: %s | %s | %s" % (out[-2:], out2[-3:], out3[-3:])
+    if out3[-4:] != ["OK I 1", "OK I 100", "OK I 200", "OK I 300"]:
+        return True, "program %r: bindings of a call leak into the defining environment: %s (expected 1 100 200 300)" % (prog3, out3[-4:])
+    # ... also for a body without internal definitions
+    prog3b = "(define p0 200) (define rest 300)\n(define (g2 %s) 'x)\n(g2 %s)\np0\nrest\n" % (plist, " ".join(str(x) for x in actual))
+    out3b = [x.strip() for x in nat.cmd("eval %s" % hexs(prog3b)).split(" ;; ")]
+    if out3b[-2:] != ["OK I 200", "OK I 300"]:
+        return True, "program %r: the parameters of a call leak into the defining environment: %s (expected 200 300)" % (prog3b, out3b[-2:])
+    # fourth probe: a closure created inside an internal definition sees LATER internal definitions of the same body and only those
+    prog4 = ("(define balance 1)\n(define (mk %s) (define w (let ((k 0)) (lambda (n) (set! balance (- balance n)) balance))) (define balance 100) w)\n"
+             "(define w1 (mk %s)) (define w2 (mk %s))\n(w1 10)\n(w2 1)\nbalance\n" % (plist, " ".join(str(x) for x in actual), " ".join(str(x) for x in actual)))
+    out4 = [x.strip() for x in nat.cmd("eval %s" % hexs(prog4)).split(" ;; ")]
+    if out4[-3:] != ["OK I 90", "OK I 99", "OK I 1"]:
+        return True, "program %r: a closure built in an internal definition does not see the body's own later definition: %s (expected 90 99 1)" % (prog4, out4[-3:])
+    # fifth probe: a procedure defined internally is visible to a later internal variable definition
+    prog5 = "(define (scale x) (* x 100))\n(define (h %s) (define (scale x) (* x 2)) (define y (scale 3)) (+ y 1))\n(h %s)\n" % (plist, " ".join(str(x) for x in actual))
+    out5 = [x.strip() for x in nat.cmd("eval %s" % hexs(prog5)).split(" ;; ")]
+    if out5[-1] != "OK I 7":
+        return True, "program %r: an internal procedure definition is not visible to a later internal definition: %s (expected 7)" % (prog5, out5[-1])
+    # sixth probe: closures built in the operands of a self tail call keep the bindings of THEIR iteration
+    prog6 = "(define (collect i acc) (if (= i 3) acc (collect (+ i 1) (cons (lambda () i) acc))))\n(define ps (collect 0 '()))\n((car ps))\n((car (cdr ps)))\n((car (cdr (cdr ps))))\n"
+    out6 = [x.strip() for x in nat.cmd("eval %s" % hexs(prog6)).split(" ;; ")]
+    if out6[-3:] != ["OK I 2", "OK I 1", "OK I 0"]:
+        return True, "program %r: closures created in successive iterations of a loop share a frame: %s (expected 2 1 0)" % (prog6, out6[-3:])
+    return False, "native probes of this shape behave correctly: %s | %s | %s | %s | %s | %s" % (out[-2:], out2[-3:], out3[-4:], out4[-3:], out5[-1], out6[-3:])
 
 
 # ================================================================================================ eval_tail_expression
@@ -402,3 +452,15 @@ def run_eval_expression(chk, ex, on_path, max_operands=3):
     envrc = Ref(envcell)
     for rv in ex.run(f, [Ref(Cell(x)), Ref(Cell(envrc))]):
         on_path(rv, list(ex.events), {"x": x, "envcell": envcell})
+
+
+SHAPES = [(0, False, 0, 0, 1), (0, True, 0, 2, 2), (2, True, 4, 1, 3), (1, False, 1, 2, 1), (3, True, 3, 0, 2)]
+
+
+def shape_probe_selfcheck(nat):
+    """the parametric shape probes on representative shapes: they must pass on a correct tree (guards the probes themselves)"""
+    for sh in SHAPES:
+        bad, detail = scheme_shape_probe(nat, *sh)
+        if bad:
+            return True, "shape %s: %s" % (sh, detail)
+    return False, "shape probes pass for %s" % (SHAPES,)
